@@ -178,6 +178,20 @@ Theorem C11_acceptor_send_gate : forall c m w,
 Proof. exact acceptor_send_gate. Qed.
 Print Assumptions C11_acceptor_send_gate.
 
+(* LOGON_INITIAL_RECV is only ever set together with the ACCEPTOR role and the role changes only with the state:
+   the invariant "LOGON_INITIAL_RECV -> role ACCEPTOR" holds before and after every operation of every history *)
+Theorem C11_logon_recv_is_acceptor : forall c h w,
+  recv_acc w -> Forall (fun s => recv_acc (s_before s) /\ recv_acc (s_after s)) (run c w h).
+Proof. exact run_recv_is_acceptor. Qed.
+Print Assumptions C11_logon_recv_is_acceptor.
+
+(* ... so on every connection the library itself brought into LOGON_INITIAL_RECV the R8c gate applies *)
+Theorem C11_logon_recv_send_gate : forall c m w,
+  recv_acc w -> st w = ST_LOGON_RECV -> mkind m <> KLogon -> mkind m <> KLogout ->
+  send_msg c m w = mkR (inr XConn) w [].
+Proof. exact logon_recv_send_gate. Qed.
+Print Assumptions C11_logon_recv_send_gate.
+
 (* former D15 witness, repaired: initiator, Logon sent, no reply yet, an application message arrives:
    dropped without Logout, nothing delivered, next_num_in unchanged *)
 Example C11_initiator_app_before_logon_dropped :
